@@ -14,7 +14,7 @@ ID = "C16"
 LEVEL = "exploration"
 RULE = ("random sequences (1-8) of {assign new collection, assign the field to itself, +=, |=, append, extend, insert, "
         "item assignment, slice assignment, add, update (one or several arguments), extend by itself, += / |= on the container "
-        "under another name; falsy and iterable elements / owners; the iterable arguments given as list / tuple / generator / iterator / "
+        "under another name; a second instance whose field is first written (constructor, dataclasses.replace, assignment) with the managed container of the first; falsy and iterable elements / owners; the iterable arguments given as list / tuple / generator / iterator / "
         "map / reversed} on a list-valued and a set-valued managed field starting from "
         "random contents (given at construction or assigned), under several PYTHONHASHSEEDs.  Non-trivial = the "
         "sequence contains at least two different operation kinds and the field ends non-empty; distinct = the "
@@ -87,7 +87,10 @@ def gen(rng, tier, ctx):
         op = rng.choice(LIST_OPS if kind == "list" else SET_OPS)
         vals = [rng.randrange(n_other) for _ in range(rng.randint(0, 3))]
         ops.append([op, vals, rng.randrange(8), rng.choice(ARG_FORMS)])
+    # a second owner whose field is first written with the managed container of the first owner, before operation #at
+    second = {"at": rng.randrange(len(ops) + 1), "form": rng.choice(["ctor", "replace", "assign"])} if rng.random() < 0.3 else None
     return {"kind": kind, "n_other": n_other, "start": start, "start_form": rng.choice(["ctor", "assign", "append"]), "ops": ops,
+            "second_owner": second,
             "twins": rng.random() < 0.3, "odd": rng.random() < 0.2,
             # the field is declared on Person / Org, the owner may be an instance of a subclass
             "owner_cls": rng.choice(["Person", "Employee", "Manager"] if kind == "list" else ["Org", "Dept", "Org"])}
@@ -103,6 +106,10 @@ def witnesses():
         "slice-assignment-of-one-shot-iterable": {"kind": "list", "n_other": 3, "start": [0], "start_form": "ctor", "ops": [["setslice", [1, 2], 1, "gen"]]},
         "negative-position-resolved-after-inference": {"kind": "tlist", "n_other": 3, "chains": [[1, 2]], "start": [0, 0], "start_form": "ctor",
                                                        "ops": [["setitem", [1], -1, "list"], ["insert", [1], -1, "list"]]},
+        "first-assignment-adopts-foreign-container": {"kind": "list", "n_other": 3, "start": [0], "start_form": "ctor", "second_owner": {"at": 0, "form": "ctor"},
+                                                      "ops": [["append", [1], 0, "list"], ["assign_new", [2], 0, "list"]]},
+        "first-assignment-adopts-foreign-container-set": {"kind": "set", "n_other": 3, "start": [0], "start_form": "ctor", "second_owner": {"at": 0, "form": "replace"},
+                                                          "ops": [["add", [1], 0, "list"]]},
         "set-ior-erases-field": {"kind": "set", "n_other": 3, "start": [0], "start_form": "ctor", "ops": [["ior", [1], 0]]},
     }
 
@@ -314,7 +321,30 @@ def run(spec, ctx):
     check("start(" + spec["start_form"] + ")")
     if problems and spec["start_form"] in ("ctor", "assign") and kind == "list":
         key = "assigned-list-order-and-duplicates-lost"
-    for op_spec in spec["ops"]:
+    second_spec = spec.get("second_owner")
+    second = None
+    for op_number, op_spec in enumerate(list(spec["ops"]) + [None]):
+        if second_spec and second_spec["at"] == op_number and not problems:
+            # the first write of the field of another instance receives the managed container of the owner
+            import dataclasses
+            try:
+                if second_spec["form"] == "ctor":
+                    second = Owner("second", **{field: getattr(owner, field)})
+                elif second_spec["form"] == "replace":
+                    second = dataclasses.replace(owner, name="second")
+                else:
+                    second = Owner("second")
+                    setattr(second, field, getattr(owner, field))
+            except Exception as e:
+                problems.append(f"second owner ({second_spec['form']}) raised {type(e).__name__}: {e}"[:200])
+                break
+            second_snapshot = [id(x) for x in model]
+            C["second_owner:" + second_spec["form"]] += 1
+            named["second"] = second
+            name_of[id(second)] = "second"
+            check("second owner written from the field (" + second_spec["form"] + ")")
+        if op_spec is None:
+            break
         op, idxs, pos = op_spec[:3]
         form = op_spec[3] if len(op_spec) > 3 else "list"
         vals = [others[i] for i in idxs]
@@ -414,6 +444,21 @@ def run(spec, ctx):
                    "setslice": "slice-assignment-bypasses-monitoring"}.get(op)
         if not ok:
             break
+    if second is not None and not problems:
+        # whatever the second owner's field holds now has to be recorded for the second owner (and what it was given
+        # has to be there)
+        sg = SymbolGraph()
+        have = {(id(r.source.instance), r.wrapped_field.public_name, id(r.target.instance)) for r in sg.relations()
+                if r.source.instance is not None and r.target.instance is not None}
+        held = list(getattr(second, field))
+        C["second_owner_checks"] += 1
+        for x in held:
+            if (id(second), field, id(x)) not in have:
+                problems.append(f"second.{field} holds {name_of.get(id(x), repr(x))} but the graph has no relation second.{field} -> it "
+                                f"(first written from the owner's managed container: {second_spec['form']})")
+                break
+        if not set(second_snapshot) <= {id(x) for x in held}:
+            problems.append(f"second.{field} lost elements it was given")
     # relations: every element that ever became part of the field is recorded with its inferences
     if not problems and twins:
         C["relation_checks"] += 1
@@ -435,6 +480,8 @@ def run(spec, ctx):
     elif not problems:
         C["relation_checks"] += 1
         facts = {(owner_name, field, name_of[i]) for i in ever}
+        if second is not None:
+            facts |= {("second", field, name_of[i]) for i in second_snapshot}
         exp = OC.closure(facts, {}, {})
         rel = set(OC.observe_graph(named, SymbolGraph()))
         fields, _ = OC.observe_fields(om, named)
